@@ -2,4 +2,4 @@
 Require Extraction.
 Require Import ExtrOcamlBasic.
 Require Import Model.Base Model.Ir Model.Propagate Model.Justify Model.SsaCheck Model.DegJustify Model.Ssa Model.ConstCond Model.SsaErase Model.Clean Model.DegWf Model.SsaPre.
-Separate Extraction Base.base_roots Base.outcome Ir.cfg Ir.set_blocks Propagate.propagate Justify.vjust_cfg Justify.ldefs_unique_cfg SsaCheck.ssa_check DegJustify.djust_cfg Ssa.into_ssa ConstCond.cc_findings SsaErase.erase_eqb SsaErase.mixed_keys_ok Clean.clean_cfg DegWf.deg_wf SsaPre.pre_ssa_ok SsaPre.children_coverb.
+Separate Extraction Base.base_roots Base.outcome Ir.cfg Ir.set_blocks Propagate.propagate Justify.vjust_cfg Justify.ldefs_unique_cfg SsaCheck.ssa_check DegJustify.djust_cfg Ssa.into_ssa ConstCond.cc_findings SsaErase.erase_eqb SsaErase.mixed_keys_ok Clean.clean_cfg DegWf.deg_wf SsaPre.pre_ssa_ok SsaPre.children_coverb SsaPre.ssa_dyn_pre_ok SsaPre.children_treeb.
